@@ -8,6 +8,8 @@ CONSTANTS
   PolQ = "min"
   PolW = "min"
   FormOf <- FormsOAU
+  UpOf <- UpNone
+  MaxToggles = 0
   MwEnabled = TRUE
   Variant = "asWritten"
   KeepRecords = TRUE
